@@ -9,6 +9,7 @@ From Coq Require Import Strings.String Strings.Ascii ZArith NArith Lia.
 From RV Require Import Base.Text Irc.Str Irc.Parse Irc.State Irc.Monad Irc.Cmds Irc.SCmds Irc.Apply.
 From RV Require Import IrcProofs.WP IrcProofs.Inv IrcProofs.InvPrims IrcProofs.StrLemmas IrcProofs.Handlers
                        IrcProofs.SHandlers IrcProofs.Top IrcProofs.Privilege.
+From RV Require IrcProofs.Examples.
 Local Open Scope string_scope.
 
 (* ---- partial-correctness triples: a run that panics or leaves the domain satisfies everything ------- *)
@@ -767,17 +768,23 @@ Definition chan_kept (NK : string -> Prop) (G : Prop) (c c' : chan) : Prop :=
   (topic3 c' = topic3 c \/ (has_mode 116 (c_modes c) = false /\ kmem NK c)) /\
   (kmem NK c' -> kmem NK c \/ G).
 
+(* the nick key of the acting session after the step is one that was free or its own before *)
+Definition own_nick (k : N * N) (sv sv' : server) : Prop :=
+  forall s', sv_sessions sv' !! k = Some s' -> NKof sv k (nick_to_lower (s_nick s')).
+
 Definition chan_protected_same (k : N * N) (lc : string) (G : chan -> Prop) (sv sv' : server) : Prop :=
   forall c, sv_channels sv !! lc = Some c ->
-    (sv_channels sv' !! lc = None /\ forall n, ~ NKof sv k n -> c_nicks c !! n = None) \/
-    (exists c', sv_channels sv' !! lc = Some c' /\ chan_kept (NKof sv k) (G c) c c').
+    own_nick k sv sv' /\
+    ((sv_channels sv' !! lc = None /\ forall n, ~ NKof sv k n -> c_nicks c !! n = None) \/
+     (exists c', sv_channels sv' !! lc = Some c' /\ chan_kept (NKof sv k) (G c) c c')).
 
 Lemma Iv_final e k NK lc c s0 Off down nooper sv' :
   Iv e k NK lc c s0 Off down nooper sv' ->
-  (sv_channels sv' !! lc = None /\ forall n, ~ NK n -> c_nicks c !! n = None) \/
-  (exists c', sv_channels sv' !! lc = Some c' /\ chan_kept NK (down = false /\ Gate e lc c s0 Off) c c').
+  (forall s', sv_sessions sv' !! k = Some s' -> NK (nick_to_lower (s_nick s'))) /\
+  ((sv_channels sv' !! lc = None /\ forall n, ~ NK n -> c_nicks c !! n = None) \/
+   (exists c', sv_channels sv' !! lc = Some c' /\ chan_kept NK (down = false /\ Gate e lc c s0 Off) c c')).
 Proof.
-  intros ((_ & H0) & _). destruct (sv_channels sv' !! lc) as [c'|].
+  intros ((_ & H0) & _ & HS). split; [intros s' Hs'; apply (HS s' Hs')|]. destruct (sv_channels sv' !! lc) as [c'|].
   - right. exists c'. split; [reflexivity|]. destruct H0 as (H1 & H2 & H3 & H4 & H5 & H6 & H7 & H8).
     repeat split; auto.
     + destruct H7 as [H7|(H7 & H7' & _)]; [now left|right; auto].
@@ -888,10 +895,12 @@ Proof.
   assert (Hinit : forall d, Iv e k (NKof sv k) lc c s1 (offered m) d nooper sv1).
   { intros d. eapply Iv_init; eauto. intros Hn. rewrite Ho1. destruct Hop as [Y|Hf]; [exact Y|]. unfold nooper in Hn. congruence. }
   assert (Hfin : forall d, Iv e k (NKof sv k) lc c s1 (offered m) d nooper sv' -> (d = false -> to_upper (m_cmd m) = "JOIN") ->
-    (sv_channels sv' !! lc = None /\ forall n, ~ NKof sv k n -> c_nicks c !! n = None) \/
-    (exists c', sv_channels sv' !! lc = Some c' /\
-       chan_kept (NKof sv k) (to_upper (m_cmd m) = "JOIN" /\ may_join e s1 lc c (offered m)) c c')).
-  { intros d HI Hdj. destruct (Iv_final _ _ _ _ _ _ _ _ _ _ HI) as [Y|(c' & Hc' & K)]; [now left|right]. exists c'. split; [exact Hc'|].
+    own_nick k sv sv' /\
+    ((sv_channels sv' !! lc = None /\ forall n, ~ NKof sv k n -> c_nicks c !! n = None) \/
+     (exists c', sv_channels sv' !! lc = Some c' /\
+       chan_kept (NKof sv k) (to_upper (m_cmd m) = "JOIN" /\ may_join e s1 lc c (offered m)) c c'))).
+  { intros d HI Hdj. destruct (Iv_final _ _ _ _ _ _ _ _ _ _ HI) as [Hown [Y|(c' & Hc' & K)]]; (split; [exact Hown|]); [now left|right].
+    exists c'. split; [exact Hc'|].
     destruct K as (K1 & K2 & K3 & K4 & K5 & K6 & K7 & K8). repeat split; auto.
     intros Hm. destruct (K8 Hm) as [Y|[Hdf G]]; [now left|right]. split; [now apply Hdj|exact G]. }
   destruct Hinv as [(r1 & r2 & Hdel)|[->|(minp & f & r1 & r2 & Hcmd & Hf)]].
@@ -909,9 +918,11 @@ Qed.
 (* ---- one log entry ------------------------------------------------------------------------------------------- *)
 Lemma cps_transfer k lc G sva svb sv svb' :
   sv_channels sva = sv_channels sv -> sv_nicks sva = sv_nicks sv -> sv_channels svb' = sv_channels svb ->
+  (forall s', sv_sessions svb' !! k = Some s' -> sv_sessions svb !! k = Some s') ->
   chan_protected_same k lc G sva svb -> chan_protected_same k lc G sv svb'.
 Proof.
-  intros Hc Hn Hc' H c Hcc. unfold chan_protected_same, NKof in *. rewrite Hc, Hn in H. rewrite Hc'. now apply H.
+  intros Hc Hn Hc' Hss H c Hcc. unfold chan_protected_same, own_nick, NKof in *. rewrite Hc, Hn in H. rewrite Hc'.
+  destruct (H c Hcc) as [Hown Hrest]. split; [|exact Hrest]. intros s' Hs'. apply Hown, Hss, Hs'.
 Qed.
 
 Lemma cps_refl k lc G sv s :
@@ -920,7 +931,7 @@ Proof.
   intros I Hs Hd Hno c Hc.
   pose proof (Iv_init (Env []) k sv lc c s s (fun _ _ => False) true false sv I Hs Hd Hc Hno eq_refl eq_refl Hs eq_refl
                (fun H => match Bool.diff_false_true H with end)) as HI.
-  destruct (Iv_final _ _ _ _ _ _ _ _ _ _ HI) as [Y|(c' & Hc' & K)]; [now left|right]. exists c'. split; [exact Hc'|].
+  destruct (Iv_final _ _ _ _ _ _ _ _ _ _ HI) as [Hown [Y|(c' & Hc' & K)]]; (split; [exact Hown|]); [now left|right]. exists c'. split; [exact Hc'|].
   destruct K as (K1 & K2 & K3 & K4 & K5 & K6 & K7 & K8). repeat split; auto.
   intros Hm. destruct (K8 Hm) as [Y|[Hdf _]]; [now left|discriminate].
 Qed.
@@ -929,6 +940,16 @@ Lemma mds_channels k sv : sv_channels (maybe_delete_session k sv) = sv_channels 
 Proof.
   unfold maybe_delete_session. destruct (sv_sessions sv !! k) as [s|]; [|reflexivity].
   destruct (s_server s || s_operator s), (s_deleted s); reflexivity.
+Qed.
+
+Lemma mds_sessions k sv k' s' :
+  sv_sessions (maybe_delete_session k sv) !! k' = Some s' -> sv_sessions sv !! k' = Some s'.
+Proof.
+  unfold maybe_delete_session. destruct (sv_sessions sv !! k) as [s|]; [|auto].
+  destruct (s_server s || s_operator s), (s_deleted s); cbn [sv_sessions set_sessions]; auto.
+  - intros H. apply lookup_delete_Some in H. destruct H as [_ H]. apply map_filter_lookup_Some in H. tauto.
+  - intros H. apply map_filter_lookup_Some in H. tauto.
+  - intros H. apply lookup_delete_Some in H. tauto.
 Qed.
 
 (* the session record the handler works with: the entry's time stamp and client message id are recorded first *)
@@ -947,17 +968,19 @@ Lemma handler_frame e k ra pm sv msgid finish sv' out s lc :
   InvM sv -> sv_sessions sv !! k = Some s -> s_deleted s = false -> s_server s = false ->
   (s_operator s = false \/ forall m, pm = Some m -> oper_cmd (to_upper (m_cmd m)) = false) ->
   (forall x, sv_channels (finish x) = sv_channels x) ->
+  (forall x s', sv_sessions (finish x) !! k = Some s' -> sv_sessions x !! k = Some s') ->
   run_handler sv msgid (process_message e k ra pm) finish = OOk sv' out ->
   ~ is_chanop sv k lc ->
   chan_protected_same k lc (fun c => exists m, pm = Some m /\ to_upper (m_cmd m) = "JOIN" /\
                                                may_join e (acting_view ra s) lc c (offered m)) sv sv'.
 Proof.
-  intros I Hs Hd Hsrv Hop Hfin Hrun Hno. unfold run_handler in Hrun.
+  intros I Hs Hd Hsrv Hop Hfin Hfs Hrun Hno. unfold run_handler in Hrun.
   destruct (process_message e k ra pm sv (RCtx msgid [])) as [[[[] sv2] r2]|?|?] eqn:Hpm; try discriminate.
-  injection Hrun as <- _. eapply (cps_transfer _ _ _ sv sv2); [reflexivity|reflexivity|apply Hfin|].
+  injection Hrun as <- _. eapply (cps_transfer _ _ _ sv sv2); [reflexivity|reflexivity|apply Hfin|apply Hfs|].
   destruct pm as [m|].
   - intros c Hc. assert (Hop' : s_operator s = false \/ oper_cmd (to_upper (m_cmd m)) = false) by (destruct Hop; auto).
-    destruct (line_frame e k ra m sv _ sv2 r2 s lc I Hs Hd Hsrv Hop' Hpm Hno c Hc) as [Y|(c' & Hc' & K)]; [now left|right].
+    destruct (line_frame e k ra m sv _ sv2 r2 s lc I Hs Hd Hsrv Hop' Hpm Hno c Hc) as [Hown [Y|(c' & Hc' & K)]];
+      (split; [exact Hown|]); [now left|right].
     exists c'. split; [exact Hc'|]. destruct K as (K1 & K2 & K3 & K4 & K5 & K6 & K7 & K8). repeat split; auto.
     intros Hm. destruct (K8 Hm) as [Y|[Hj G]]; [now left|right]. exists m. auto.
   - (* a line that does not parse only earns a 421 *)
@@ -982,13 +1005,14 @@ Proof.
   unfold update_last_cmid in Hu. rewrite Hs in Hu. injection Hu as <-.
   fold (stamped (timestamp id un) data cmid s) in *.
   set (s1 := stamped (timestamp id un) data cmid s) in *.
-  eapply (cps_transfer _ _ _ (set_sessions (<[(session, 0%N) := s1]>) sv) sv'); [reflexivity|reflexivity|reflexivity|].
-  eapply handler_frame. 7: exact Hap. 1: apply E1.
+  eapply (cps_transfer _ _ _ (set_sessions (<[(session, 0%N) := s1]>) sv) sv'); [reflexivity|reflexivity|reflexivity|auto|].
+  eapply handler_frame. 8: exact Hap. 1: apply E1.
   - cbn [sv_sessions set_sessions]. apply lookup_insert.
   - eapply (e_live _ E1). cbn [sv_sessions set_sessions]. apply lookup_insert.
   - exact Hsrv.
   - exact Hop.
   - intros x. cbv beta. rewrite mds_channels. reflexivity.
+  - intros x s' H. apply mds_sessions in H. exact H.
   - intros Hc. apply Hno. eapply (is_chanop_stamped sv _ s (stamped (timestamp id un) data cmid)); eauto.
 Qed.
 
@@ -1001,10 +1025,128 @@ Theorem entry_frame_delete e sv id un session quitmsg sv' out s lc :
 Proof.
   intros E Hap Hs Hsrv Hno. cbn [apply_entry] in Hap. rewrite Hs in Hap.
   destruct (parse_quit quitmsg) as [ps Hq]. rewrite Hq in Hap.
+  assert (Hq2 : forall m0, Some (IMsg None "QUIT" ps) = Some m0 -> oper_cmd (to_upper (m_cmd m0)) = false)
+    by (intros m0 [= <-]; reflexivity).
   pose proof (handler_frame e (session, 0%N) "" (Some (IMsg None "QUIT" ps)) sv id _ sv' out s lc (e_inv sv E) Hs
-                (e_live sv E _ _ Hs) Hsrv (or_intror (fun m Hm => match Hm in _ = o return match o with Some m' => oper_cmd (to_upper (m_cmd m')) = false | None => True end with eq_refl => eq_refl end))
-                (fun x => mds_channels _ _) Hap Hno) as H.
-  intros c Hc. destruct (H c Hc) as [Y|(c' & Hc' & K)]; [now left|right]. exists c'. split; [exact Hc'|].
+                (e_live sv E _ _ Hs) Hsrv (or_intror Hq2)
+                (fun x => mds_channels (session, 0%N) (set_lastProcessed (id, 0%N) x))
+                (fun x s' H => mds_sessions (session, 0%N) (set_lastProcessed (id, 0%N) x) _ s' H) Hap Hno) as H.
+  intros c Hc. destruct (H c Hc) as [Hown [Y|(c' & Hc' & K)]]; (split; [exact Hown|]); [now left|right]. exists c'. split; [exact Hc'|].
   destruct K as (K1 & K2 & K3 & K4 & K5 & K6 & K7 & K8). repeat split; auto.
   intros Hm. destruct (K8 Hm) as [Y|(m & Hm' & Hj & _)]; [now left|exfalso]. injection Hm' as <-. cbn in Hj. discriminate.
+Qed.
+
+(* ---- the frame in the words of the property ----------------------------------------------------------------------- *)
+Lemma kmem_before sv k s lc c :
+  InvM sv -> sv_sessions sv !! k = Some s -> sv_channels sv !! lc = Some c ->
+  kmem (NKof sv k) c -> is_Some (c_nicks c !! nick_to_lower (s_nick s)).
+Proof.
+  intros I Hs Hc (n & Hn & [p Hp]). destruct (i_memb_c sv I _ _ _ _ Hc Hp) as (k' & s' & Hk' & Hs' & _).
+  destruct Hn as [Hn|Hn]; [congruence|]. rewrite Hn in Hk'. injection Hk' as <-.
+  destruct (i_idx_sound sv I _ _ Hn) as (_ & s2 & Hs2 & _ & Hl). rewrite Hs in Hs2. injection Hs2 as <-. rewrite Hl. now exists p.
+Qed.
+
+Record frame_words (k : N * N) (lc : string) (G : chan -> Prop) (sv sv' : server) (s : session) (c : chan) : Prop := {
+  (* the channel disappears only when its last member — the acting session itself — leaves *)
+  fw_gone : sv_channels sv' !! lc = None -> forall n, is_Some (c_nicks c !! n) -> n = nick_to_lower (s_nick s);
+  (* name, modes, key and ban list are untouched *)
+  fw_fields : forall c', sv_channels sv' !! lc = Some c' ->
+      c_name c' = c_name c /\ c_modes c' = c_modes c /\ c_key c' = c_key c /\ c_bans c' = c_bans c;
+  (* nobody else joins, leaves, gains or loses operator status or voice *)
+  fw_others : forall c' n k', sv_channels sv' !! lc = Some c' -> sv_nicks sv !! n = Some k' -> k' <> k ->
+      c_nicks c' !! n = c_nicks c !! n;
+  (* the acting session is not a channel operator afterwards either *)
+  fw_not_op : ~ is_chanop sv' k lc;
+  (* the topic changes only if the channel is not +t and the acting session was on it *)
+  fw_topic : forall c', sv_channels sv' !! lc = Some c' ->
+      (c_topic c' = c_topic c /\ c_topicNick c' = c_topicNick c /\ c_topicTime c' = c_topicTime c) \/
+      (has_mode 116 (c_modes c) = false /\ is_Some (c_nicks c !! nick_to_lower (s_nick s)));
+  (* MEMBERSHIP GATE: the acting session is a member afterwards only if it was one before or the line was a JOIN
+     that passed every gate *)
+  fw_gate : forall c' s', sv_channels sv' !! lc = Some c' -> sv_sessions sv' !! k = Some s' ->
+      is_Some (c_nicks c' !! nick_to_lower (s_nick s')) ->
+      is_Some (c_nicks c !! nick_to_lower (s_nick s)) \/ G c;
+}.
+
+Lemma cps_words k lc G sv sv' s c :
+  InvM sv -> sv_sessions sv !! k = Some s -> sv_channels sv !! lc = Some c ->
+  chan_protected_same k lc G sv sv' -> frame_words k lc G sv sv' s c.
+Proof.
+  intros I Hs Hc H. destruct (H c Hc) as [Hown Hrest]. split.
+  - intros Hnone n [p Hp]. destruct Hrest as [[_ Hg]|(c' & Hc' & _)]; [|congruence].
+    destruct (NKof_dec sv k n) as [Hn|Hn]; [|rewrite (Hg n Hn) in Hp; discriminate].
+    destruct (i_memb_c sv I _ _ _ _ Hc Hp) as (k' & s' & Hk' & Hs' & _).
+    destruct Hn as [Hn|Hn]; [congruence|]. rewrite Hn in Hk'. injection Hk' as <-.
+    destruct (i_idx_sound sv I _ _ Hn) as (_ & s2 & Hs2 & _ & Hl). rewrite Hs in Hs2. injection Hs2 as <-. now rewrite Hl.
+  - intros c' Hc'. destruct Hrest as [[Hn _]|(c2 & Hc2 & K)]; [congruence|]. rewrite Hc' in Hc2. injection Hc2 as <-.
+    destruct K as (K1 & K2 & K3 & K4 & _). auto.
+  - intros c' n k' Hc' Hn Hne. destruct Hrest as [[Hnn _]|(c2 & Hc2 & K)]; [congruence|]. rewrite Hc' in Hc2. injection Hc2 as <-.
+    destruct K as (_ & _ & _ & _ & K5 & _). apply K5. apply NKof_other. eauto.
+  - intros (s' & c' & v & Hs' & Hc' & Hm). destruct Hrest as [[Hnn _]|(c2 & Hc2 & K)]; [congruence|]. rewrite Hc' in Hc2. injection Hc2 as <-.
+    destruct K as (_ & _ & _ & _ & _ & K6 & _). specialize (K6 _ _ _ (Hown s' Hs') Hm). discriminate.
+  - intros c' Hc'. destruct Hrest as [[Hnn _]|(c2 & Hc2 & K)]; [congruence|]. rewrite Hc' in Hc2. injection Hc2 as <-.
+    destruct K as (_ & _ & _ & _ & _ & _ & K7 & _). destruct K7 as [K7|[Ht Hm]].
+    + left. unfold topic3 in K7. injection K7 as -> -> ->. auto.
+    + right. split; [exact Ht|]. eapply kmem_before; eauto.
+  - intros c' s' Hc' Hs' Hm. destruct Hrest as [[Hnn _]|(c2 & Hc2 & K)]; [congruence|]. rewrite Hc' in Hc2. injection Hc2 as <-.
+    destruct K as (_ & _ & _ & _ & _ & _ & _ & K8).
+    destruct K8 as [Y|Y]; [exists (nick_to_lower (s_nick s')); split; [apply Hown, Hs'|exact Hm]|left; eapply kmem_before; eauto|now right].
+Qed.
+
+(* C13, global frame and membership gate, for every client line in the log *)
+Theorem C13_frame e sv id un session cmid ra data sv' out s lc c :
+  EInv sv -> apply_entry e sv (EMessage id un session cmid ra data) = OOk sv' out ->
+  sv_sessions sv !! (session, 0%N) = Some s -> s_server s = false ->
+  (s_operator s = false \/ forall m, parse_message data = Some m -> oper_cmd (to_upper (m_cmd m)) = false) ->
+  sv_channels sv !! lc = Some c -> ~ is_chanop sv (session, 0%N) lc ->
+  frame_words (session, 0%N) lc
+    (fun c => exists m, parse_message data = Some m /\ to_upper (m_cmd m) = "JOIN" /\
+                        may_join e (acting_view ra (stamped (timestamp id un) data cmid s)) lc c (offered m)) sv sv' s c.
+Proof.
+  intros E Hap Hs Hsrv Hop Hc Hno. eapply cps_words; [apply E|exact Hs|exact Hc|]. eapply entry_frame; eauto.
+Qed.
+
+Lemma may_join_unfold e s lc c Off :
+  may_join e s lc c Off <->
+  (has_mode 105 (c_modes c) = true -> lc ∈ s_invited s) /\
+  banned (c_bans c) (prefix_string (s_prefix s)) (s_nick s ++ "!" ++ s_user s ++ "@" ++ s_remoteAddr s) = false /\
+  ((has_mode 120 (c_modes c) = true /\
+    (recent s = true \/ exists ch key, Off ch key /\ captcha_valid e s key = true)) \/
+   ((has_mode 120 (c_modes c) = true -> lc ∈ s_invited s) /\
+    (has_mode 107 (c_modes c) = true -> exists ch, chan_to_lower ch = lc /\ Off ch (c_key c)))).
+Proof. reflexivity. Qed.
+
+(* ---- non-vacuity ----------------------------------------------------------------------------------------------------- *)
+Definition is_chanop_b (sv : server) (k : N * N) (lc : string) : bool :=
+  match sv_sessions sv !! k, sv_channels sv !! lc with
+  | Some s, Some c => match c_nicks c !! nick_to_lower (s_nick s) with Some (true, _) => true | _ => false end
+  | _, _ => false
+  end.
+Lemma is_chanop_b_false sv k lc : is_chanop_b sv k lc = false -> ~ is_chanop sv k lc.
+Proof.
+  unfold is_chanop_b. intros H (s & c & v & Hs & Hc & Hm). rewrite Hs, Hc, Hm in H. discriminate.
+Qed.
+
+(* Foo (session 1) created #chan and is its operator, bar (session 4) joined later and is not *)
+Definition ex_prefix : list entry := firstn 8 Examples.ex_history.
+
+Lemma ex_prefix_EInv sv : run Examples.ex_env (init_server "robustirc.net") ex_prefix = Some sv -> EInv sv.
+Proof.
+  intros H. destruct (run_ok Examples.ex_env (init_server "robustirc.net") ex_prefix (EInv_init _)) as (sv1 & H1 & E1).
+  - apply Examples.wf_history_b_sound. vm_compute. reflexivity.
+  - rewrite H in H1. injection H1 as <-. exact E1.
+Qed.
+
+Example ex_frame_nonvacuous :
+  exists sv sv' out s c,
+    run Examples.ex_env (init_server "robustirc.net") ex_prefix = Some sv /\ EInv sv /\
+    apply_entry Examples.ex_env sv (EMessage 11 11000 4 25 "" "MODE #chan +i-t") = OOk sv' out /\
+    sv_sessions sv !! (4%N, 0%N) = Some s /\ s_server s = false /\ s_operator s = false /\
+    sv_channels sv !! "#chan" = Some c /\ c_nicks c !! "foo" = Some (true, false) /\ c_nicks c !! "bar" = Some (false, false) /\
+    ~ is_chanop sv (4%N, 0%N) "#chan" /\ List.length out = 1 /\ sv_channels sv' !! "#chan" = Some c.
+Proof.
+  eexists _, _, _, _, _. split; [vm_compute; reflexivity|]. split; [apply ex_prefix_EInv; vm_compute; reflexivity|].
+  split; [vm_compute; reflexivity|]. split; [vm_compute; reflexivity|]. split; [reflexivity|]. split; [reflexivity|].
+  split; [vm_compute; reflexivity|]. split; [vm_compute; reflexivity|]. split; [vm_compute; reflexivity|].
+  split; [apply is_chanop_b_false; vm_compute; reflexivity|]. split; vm_compute; reflexivity.
 Qed.
